@@ -81,7 +81,7 @@ func (ex *Exec) execInstr(b *ssa.BasicBlock, st *State, in ssa.Instruction) {
 			ref := ex.val(st, in.X)
 			owner := in.X.Type().Underlying().(*types.Pointer).Elem()
 			ex.safeOblige(st, "nil-deref", Not(Eq(ref, IntLit(0))))
-			if isOpaqueNamed(owner) {
+			if isOpaqueNamed(owner) && !isListElementValue(owner, in.Field) {
 				ex.locs[in] = LocDeref{vc.fresh("opq", SInt), owner.Underlying().(*types.Struct).Field(in.Field).Type()}
 			} else {
 				ex.locs[in] = LocHeapField{ref, owner, in.Field}
